@@ -315,6 +315,12 @@ def py_stimuli(rng, quick):
                 sv = v - (1 << ln) if v >> (ln - 1) else v
                 res.append(({"ev": "setu", "buf": [0] * size, "size": size, "off": off, "len": ln, "val": list(struct.pack("<Q", sv & ((1 << 64) - 1))), "rc": "none", "kinds": False,
                              "py": ["set_int", sv, True]}, "set_int s %d %d %d" % (off, ln, sv)))
+                # generated code hands over array elements as NumPy scalars of the storage type (int8 for int7 ...): same contract
+                nsv = -(1 << (ln - 1)) if v & 1 else sv
+                res.append(({"ev": "setu", "buf": [0] * size, "size": size, "off": off, "len": ln, "val": list(struct.pack("<Q", nsv & ((1 << 64) - 1))), "rc": "none", "kinds": False,
+                             "py": ["set_int", nsv, True, "np"]}, "set_int s(np) %d %d %d" % (off, ln, nsv)))
+                res.append(({"ev": "setu", "buf": [0] * size, "size": size, "off": off, "len": ln, "val": list(struct.pack("<Q", v)), "rc": "none", "kinds": False,
+                             "py": ["set_int", v, False, "np"]}, "set_int u(np) %d %d %d" % (off, ln, v)))
             # declared sizes: enough, short by two, empty, ending inside / right before the field, ending one and two bytes before an ALIGNED fetch starts
             for dsize in sorted({size, max(size - 2, 0), 0, (off + ln) // 8, max(off // 8 - 1, 0), max(off // 8 - 2, 0)}):
                 data = bytes(rng.getrandbits(8) for _ in range(dsize))
@@ -357,7 +363,13 @@ def py_exec(py, rec):
     op = rec["py"]
     data = bytes(rec["buf"])
     if op[0] == "set_int":
-        r["out"] = list(py.set_int(rec["size"], rec["off"], op[1], rec["len"], op[2]))
+        val = op[1]
+        if len(op) > 3 and op[3] == "np":
+            import numpy
+
+            w = next(x for x in (8, 16, 32, 64) if x >= rec["len"])
+            val = getattr(numpy, ("int%d" if op[2] else "uint%d") % w)(val)
+        r["out"] = list(py.set_int(rec["size"], rec["off"], val, rec["len"], op[2]))
     elif op[0] == "set_float":
         r["out"] = list(py.set_float(rec["size"], rec["off"], rec["W"], op[1]))
     elif op[0] == "set_bits":
